@@ -674,7 +674,7 @@ class Length(object):
             return self
         if self.units == "pt":
             if other.units == "px" or other.units == "":
-                self.amount += other.amount / 4.0 / 3.0
+                self.amount += other.amount * 3.0 / 4.0
             elif other.units == "pc":
                 self.amount += other.amount * 12.0
             else:
@@ -883,9 +883,9 @@ class Length(object):
         if self.units == "px" or self.units == "":
             return self.amount
         if self.units == "pt":
-            return self.amount * 3.0 / 4.0
+            return self.amount * 4.0 / 3.0
         if self.units == "pc":
-            return self.amount / 16.0
+            return self.amount * 16.0
         return None
 
     def in_inches(self):
